@@ -43,6 +43,8 @@ func toleranceEquality(fn *ssa.Function) bool {
 func checkC05(c *core.Ctx, r *core.Report) {
 	r.Explanation = "C05 (result order, limits, pagination), comparator and cut-off clauses only: " +
 		"(1) comparator exactness — every ordering function handed to sort.Slice/SliceStable/sort.Sort, IQR.Sort and IQR merging (and the sort command's less functions) is collected from the call sites, and no function reachable from it over static calls is a tolerance equality (|a-b| < eps) or converts a dynamically typed column value between uint64 and int64 (which wraps at 2^63): such a comparator is not the numeric order, so adjacent output can be out of order; " +
+		"(7) SIBLING — the parser that ranks a string as numeric in getRank is the parser the comparison converts it with; " +
+		"(8) every compareValues call sits inside a whole loop over the sort elements (no ordering decision on one key alone); " +
 		"(6) the merger that joins the sort-index and the plain sub-searcher of a pushed-down sort is configured from a private copy of the sort expression whose row limit is the maximum (the plain stream is not in sort-key order, so the merger must not truncate); " +
 		"(2) SIBLING — sortProcessor.less and lessDirectRead decide through the same compareValues; " +
 		"(4) the sort-index search's decision to stop at the limit is control-dependent on the number of sort keys (the index orders by the first key only); " +
@@ -145,6 +147,8 @@ func checkC05(c *core.Ctx, r *core.Report) {
 	}
 
 	c05MergeLimit(c, r)
+	c05RankParser(c, r)
+	c05AllKeys(c, r)
 
 	// ---------------------------------------------------------------- (2)
 	cv := c.Obj(pkgProcessor, "compareValues")
@@ -620,4 +624,72 @@ func c05MergeLimit(c *core.Ctx, r *core.Report) {
 		}
 	}
 	r.Floor("ORDER", "mergers configured from a sort expression in getSubsearchIfNeeded", n, 1)
+}
+
+// c05RankParser — (7): the sort comparator first ranks a string as numeric or text (getRank) and then converts it
+// (CValueEnclosure.GetFloatValueIfPossible).  A string that is ranked numeric but cannot be converted takes the
+// comparator's unflipped early exits and never compares EQUAL, so it lands in the wrong place and the later sort
+// keys are ignored for it.  The two sites must therefore ask the same parser: every float-parsing function called by
+// getRank is also called by GetFloatValueIfPossible.
+func c05RankParser(c *core.Ctx, r *core.Report) {
+	rank := c.Fn(pkgProcessor, "getRank")
+	conv := c.Fn(pkgSutils, "CValueEnclosure.GetFloatValueIfPossible")
+	parsers := func(fn *ssa.Function) map[string]bool {
+		out := map[string]bool{}
+		for _, ci := range core.CallsIn(fn) {
+			f := core.CalleeFunc(ci)
+			if f == nil || f.Pkg() == nil {
+				continue
+			}
+			if strings.Contains(f.Name(), "ParseFloat") || strings.Contains(f.Name(), "ParseInt") || strings.Contains(f.Name(), "ParseUint") {
+				out[f.Pkg().Path()+"."+f.Name()] = true
+			}
+		}
+		return out
+	}
+	a, b := parsers(rank), parsers(conv)
+	r.Floor("SIBLING", "number parsers called by getRank", len(a), 1)
+	var missing []string
+	for p := range a {
+		if !b[p] {
+			missing = append(missing, p)
+		}
+	}
+	sort.Strings(missing)
+	r.Check(len(missing) == 0, "SIBLING", "processor.getRank:ranks-with-the-parser-the-comparison-converts-with", c.Pos(rank.Pos()),
+		"every number parser that decides the rank is the parser the conversion uses",
+		"getRank decides that a string is numeric with "+strings.Join(missing, ", ")+", which CValueEnclosure.GetFloatValueIfPossible does not use: strings the two parsers disagree on (\"-\", \".\", \"1e999\") are ranked numeric but cannot be converted, so the comparator orders them inconsistently and ignores the later sort keys for them")
+}
+
+// c05AllKeys — (8) (shared with C06): rows are ordered by ALL sort keys, the later ones breaking ties of the earlier.
+// Every call of compareValues in the processor package therefore sits inside a whole loop over the sort elements
+// (p.options.SortEles) and takes its direction and mode from the loop's element: a decision (skipping a batch, cutting
+// at the limit) taken on one key alone treats rows that tie on that key as equal.
+func c05AllKeys(c *core.Ctx, r *core.Report) {
+	cv := c.Obj(pkgProcessor, "compareValues")
+	elesF := c.Field(pkgStructs, "SortExpr.SortEles")
+	n := 0
+	for _, fn := range c.RepoFunctions() {
+		if core.FnPkgPath(fn) != core.ModPath+"/"+pkgProcessor {
+			continue
+		}
+		calls := callsTo(fn, cv)
+		if len(calls) == 0 {
+			continue
+		}
+		loops := wholeLoops(fn, elesF)
+		for i, call := range calls {
+			n++
+			in := false
+			for _, lp := range loops {
+				if lp.Body[call.Block()] {
+					in = true
+				}
+			}
+			r.Check(in, "ORDER", fmt.Sprintf("%s:compareValues#%d-inside-the-loop-over-all-sort-keys", shortFn(fn), i+1), c.Pos(call.Pos()),
+				"the comparison is one step of a loop over every sort element",
+				"rows are compared on a single sort key outside the loop over all sort elements: rows that tie on that key are treated as equal although a later key orders them, so a decision built on this comparison (skipping a batch, cutting at the limit) drops rows that belong to the result")
+		}
+	}
+	r.Floor("ORDER", "compareValues call sites", n, 2)
 }
